@@ -346,6 +346,9 @@ pub fn c04(opts: &Opts) -> Report {
     if want(opts, "wide") {
         crate::props::wide::run(&mut rep, opts);
     }
+    if want(opts, "visible") {
+        crate::props::wide::run_visible(&mut rep, opts);
+    }
     if want(opts, "timer") {
         run_family(&mut rep, opts, &FamilyRun { prop: "C04", part: "timer", cases: opts.n(if cfg!(miri) { 2 } else { 80 }, 2000), gen: &|s| gen::gen_timer(s, &to), set: ExecSet::Full, pools: &[EXECUTOR_SITES], nontrivial: &|s, _| s.handlers > 1, predict: true, also: &["C03"] });
     }
